@@ -63,6 +63,8 @@ def gen_opts(rng, allow_paths=False, case_no=None):
         opts["exclude"] = EXCLUDE_SETS[(case_no // 3) % len(EXCLUDE_SETS)]
     if case_no is not None and case_no % 3 == 1:
         opts["lstrip"] = LSTRIP_SETS[(case_no // 3) % len(LSTRIP_SETS)]
+    if case_no is not None and case_no % 6 == 5 and allow_paths:
+        opts["paths"] = "top-level"      # (explicit path lists in every run)
     if case_no is not None and case_no % 6 == 2:
         # plain options, and the tree gets its directory links (an alias of a directory; a link whose target's path is a
         # string prefix of its host's) - in every run
@@ -234,6 +236,8 @@ class Honest:
         if opts["paths"] == "top-level":
             # make sure two entries share a name prefix: a directory and a sibling whose name extends it
             pair = rng.choice([["create:src/b.c0:b\n", "create:src2/c.c0:c\n"], ["create:lib/deep/x.py0:x\n", "create:lib.tar0:t\n"]])
+            # (... and a file whose name contains a bracket expression: listed by name it is that file, not a pattern)
+            pair = pair + ["create:notes[1].txt:n\n", "create:notes1.txt:other\n"]
             subprocess.run([sys.executable, "-B", STEPPER] + pair, cwd=self.work, check=True, capture_output=True)
             present = set(present) | {o.split(":")[1] for o in pair}
             # directories first, then files: "src" before "src2", "lib" before "lib.tar"
@@ -278,7 +282,8 @@ class Honest:
             for i in range(n_steps):
                 if tamper in file_tampers and tamper_at == i:
                     self.tamper_applied = apply_file_tamper(rng, self.work, tamper, opts)
-                gpg = W.gpg_available() and rng.random() < float(os.environ.get("VERIF_GPG_RATE", "0.12"))
+                gpg = W.gpg_available() and (rng.random() < float(os.environ.get("VERIF_GPG_RATE", "0.12")) or
+                                             (opts.get("force_gpg") and i == min(tamper_at, n_steps - 1)))
                 k = W.gpg_key(rng.choice(["no_sub", "no_sub2", "one_sub"])) if gpg else rng.choice([x for x in pool if x is not self.owner])
                 # the key id the signature carries (and the link file is named after): the key's own, or - for a gpg key
                 # with a signing subkey - that subkey's
